@@ -370,10 +370,18 @@ func newWriter(h *handler.Handler, replicateID string, dropped map[string]map[st
 	return w, meta
 }
 
-// shortCtx: the writer's retry helper sleeps a whole second after a failing attempt unless the context's deadline
-// is nearer than that; a sub-second deadline keeps failing probes instantaneous without changing any decision.
+// shortCtx: the writer's retry helper sleeps a whole second after a failing attempt unless the context's deadline is nearer
+// than that. The context handed to the writer therefore always reports a deadline half a second ahead but never expires:
+// failing probes stay instantaneous without changing any decision, and - unlike the real 800 ms deadline used before - a test
+// process that is descheduled on a loaded machine cannot turn into a spurious "not ready".
+type nearDeadlineCtx struct{ context.Context }
+
+func (nearDeadlineCtx) Deadline() (time.Time, bool) { return time.Now().Add(500 * time.Millisecond), true }
+func (nearDeadlineCtx) Done() <-chan struct{}       { return nil }
+func (nearDeadlineCtx) Err() error                  { return nil }
+
 func shortCtx() (context.Context, context.CancelFunc) {
-	return context.WithTimeout(context.Background(), 800*time.Millisecond)
+	return nearDeadlineCtx{context.Background()}, func() {}
 }
 
 func mutating(calls []*handler.Call) []*handler.Call {
